@@ -53,6 +53,8 @@ use std::collections::{BTreeSet, HashMap};
 use std::fmt;
 use std::num::NonZeroUsize;
 
+#[cfg(feature = "verif-hooks")]
+use crate::verif_hooks::RwLock;
 use lru::LruCache;
 use mdk_storage_traits::GroupId;
 use mdk_storage_traits::groups::types::{Group, GroupExporterSecret, GroupRelay};
@@ -61,6 +63,7 @@ use mdk_storage_traits::welcomes::types::{ProcessedWelcome, Welcome};
 use mdk_storage_traits::{Backend, MdkStorageError, MdkStorageProvider};
 use nostr::EventId;
 use openmls_traits::storage::{StorageProvider, traits};
+#[cfg(not(feature = "verif-hooks"))]
 use parking_lot::RwLock;
 
 mod groups;
@@ -68,7 +71,7 @@ mod messages;
 mod mls_storage;
 mod snapshot;
 #[cfg(feature = "verif-hooks")]
-mod verif_hooks;
+pub mod verif_hooks;
 mod welcomes;
 
 use self::mls_storage::{
